@@ -317,7 +317,7 @@ func dischargeAll(obls []*Obligation, opts solveOpts, par int) {
 				return
 			}
 			mu.Lock()
-			hopeless := failedIn[o.Func] >= 6 && !oo.all
+			hopeless := failedIn[o.Func] >= 4 && !oo.all
 			mu.Unlock()
 			if (o.KnownOpen || hopeless) && oo.timeoutS > 4 && !oo.all {
 				oo.timeoutS = 4
